@@ -6,7 +6,8 @@ from ..gen import ir, strategies as S
 from ..models import naming
 from . import c01
 
-RULE = ("Hypothesis-generated hosts with, for each drawn payload type T (every primitive, enums with negative/gapped discriminants, structs with and without padding), "
+RULE = ("Hypothesis-generated hosts with, for each drawn payload type T (every primitive, enums with negative/gapped discriminants, structs with and without padding, "
+        "out-structs in return positions), "
         "twin methods that differ only in spelling: Option<T> vs DiplomatOption<T> as parameter and as return, Result<T,E> vs DiplomatResult<T,E> with unit and non-unit "
         "arms, plus optional opaque pointers (Option<&O> in, Option<&O> / Option<Box<O>> out) and a struct carrying DiplomatOption<T> and Option<&O> fields in both directions. "
         "Twins receive identical drawn call vectors. Oracle: (1) the C prototypes and result typedefs of each twin pair are token-identical after renaming; (2) executed through "
@@ -38,19 +39,24 @@ def cases(draw):
     payloads = [["prim", draw(S.prims(p))] for _ in range(draw(st.integers(2, 4)))]
     payloads += [["enum", e["name"]] for e in enums[:2]]
     payloads += [["struct", s_["name"], []] for s_ in structs[:2]]
+    # out-structs can only be returned: they take part in the `_out_` and `_res_` twins
+    outs = [i for i in items if i["kind"] == "struct" and i.get("out") and i["fields"] and not i.get("lifetimes")]
+    out_only = [["struct", s_["name"], []] for s_ in outs[:2]]
     methods, twins = [], []
 
     def add(name, params, ret):
         methods.append({"name": name, "attrs": [], "lifetimes": [], "self": ["ref", None, False], "params": params, "ret": ret})
 
-    for k, T in enumerate(payloads):
+    for k, T in enumerate(payloads + out_only):
         for sp in ("std", "dip"):
-            add("%s_in_%d" % (sp, k), [["x", ["opt", copy.deepcopy(T), sp], []], ["tail", ["prim", "u16"], []]], ["prim", "u8"])
+            if T not in out_only:
+                add("%s_in_%d" % (sp, k), [["x", ["opt", copy.deepcopy(T), sp], []], ["tail", ["prim", "u16"], []]], ["prim", "u8"])
             add("%s_out_%d" % (sp, k), [], ["opt", copy.deepcopy(T), sp])
-        twins.append(("std_in_%d" % k, "dip_in_%d" % k))
+        if T not in out_only:
+            twins.append(("std_in_%d" % k, "dip_in_%d" % k))
         twins.append(("std_out_%d" % k, "dip_out_%d" % k))
         # results with every unit/non-unit combination of this payload and another one
-        E = draw(st.sampled_from(payloads))
+        E = draw(st.sampled_from(payloads + out_only))
         for ri, (ok, err) in enumerate([(T, E), (["unit"], E), (T, ["unit"]), (["unit"], ["unit"])]):
             for sp in ("std", "dip"):
                 add("%s_res_%d_%d" % (sp, k, ri), [], ["result", copy.deepcopy(ok), copy.deepcopy(err), sp])
